@@ -10,7 +10,25 @@ fn answers(a: &Value, b: &Value) -> (bool, bool, bool, bool) {
 	let ab = a.unordered_eq(b);
 	let ba = b.unordered_eq(a);
 	let w1 = a.as_unordered() == b.as_unordered();
-	let w2 = Unordered(a.clone()) == Unordered(b.clone());
+	let mut w2 = Unordered(a.clone()) == Unordered(b.clone());
+	// the container types are entry points of the comparison in their own right (Array = Vec<Value>, Object): every
+	// route must give the same answer as the comparison of the values; a disagreement is reported through w2
+	let mut routes: Vec<bool> = vec![];
+	if let (Value::Array(x), Value::Array(y)) = (a, b) {
+		routes.push(x.unordered_eq(y));
+		routes.push(y.unordered_eq(x));
+		routes.push(x.as_unordered() == y.as_unordered());
+		routes.push(Unordered(x.clone()) == Unordered(y.clone()));
+	}
+	if let (Value::Object(x), Value::Object(y)) = (a, b) {
+		routes.push(x.unordered_eq(y));
+		routes.push(y.unordered_eq(x));
+		routes.push(x.as_unordered() == y.as_unordered());
+		routes.push(Unordered(x.clone()) == Unordered(y.clone()));
+	}
+	if routes.iter().any(|r| *r != ab) {
+		w2 = !ab;
+	}
 	(ab, ba, w1, w2)
 }
 
